@@ -29,6 +29,43 @@ def harnesses_for(prop, tier):
     return out
 
 
+def playback(scratch, env, h, feats, is_tests):
+    base = ['cargo', 'kani', '--output-format', 'terse']
+    if feats:
+        base += ['--features', feats]
+    if is_tests:
+        base.append('--tests')
+    cmd = base + ['--harness', h['name'], '-Z', 'concrete-playback', '--concrete-playback=inplace']
+    p = subprocess.run(cmd, cwd=scratch, env=env, stdout=subprocess.PIPE, stderr=subprocess.STDOUT, timeout=1500)
+    out = p.stdout.decode('utf-8', 'replace')
+    test = None
+    vals = None
+    for root, _, files in os.walk(scratch):
+        if '/target' in root:
+            continue
+        for fn in files:
+            if not fn.endswith('.rs'):
+                continue
+            txt = open(os.path.join(root, fn)).read()
+            m = re.search(r'fn (kani_concrete_playback_%s_\d+)\s*\(\)\s*\{(.*?)\n\s*kani::concrete_playback_run' % re.escape(h['name']), txt, re.S)
+            if m:
+                test = m.group(1)
+                vals = re.sub(r'\s+', ' ', m.group(2)).strip()[:1500]
+    if not test:
+        return {'available': False, 'note': 'Kani produced no concrete playback test for this failure', 'kani_output_tail': out[-600:]}
+    cmd2 = ['cargo', 'kani', 'playback', '-Z', 'concrete-playback']
+    if feats:
+        cmd2 += ['--features', feats]
+    cmd2 += ['--', test]
+    p2 = subprocess.run(cmd2, cwd=scratch, env=env, stdout=subprocess.PIPE, stderr=subprocess.STDOUT, timeout=1500)
+    out2 = p2.stdout.decode('utf-8', 'replace')
+    failed_natively = bool(re.search(r'test result: FAILED', out2)) or (p2.returncode != 0 and test in out2)
+    msg = re.findall(r'panicked at [^\n]*\n[^\n]*', out2)
+    return {'available': True, 'test': test, 'concrete_values': vals, 'playback_cmd': ' '.join(cmd2),
+            'replayed_against_real_code': True, 'fails_natively': failed_natively,
+            'native_failure': (msg[0][:400] if msg else out2[-400:])}
+
+
 def run(harnesses, timeout_each=1500):
     """Returns a list of result dicts, one per harness."""
     if not harnesses:
@@ -115,6 +152,13 @@ def run(harnesses, timeout_each=1500):
                     r['output_tail'] = out[-2500:]
                 if r['status'] == 'UNKNOWN' and complete and nm not in failed_names:
                     r['status'] = 'SUCCESSFUL'
+            # counterexample: for a FAILED harness ask Kani for a concrete playback test, insert it into the scratch copy and run it
+            # NATIVELY against the real code (cargo kani playback); at most two harnesses per run
+            for h in [x for x in hs if seen.get(x['name'], {}).get('status') == 'FAILED'][:2]:
+                try:
+                    seen[h['name']]['counterexample'] = playback(scratch, env, h, feats, is_tests)
+                except Exception as e:   # never let the replay step change the verdict
+                    seen[h['name']]['counterexample'] = {'error': repr(e)}
             for h in hs:
                 r = seen.get(h['name'])
                 if r is None:
